@@ -4,6 +4,7 @@ go 1.21.0
 
 require (
 	Havoc v0.0.0
+	github.com/gin-gonic/gin v1.10.0
 	golang.org/x/image v0.20.0
 )
 
@@ -15,7 +16,6 @@ require (
 	github.com/fatih/structs v1.1.0 // indirect
 	github.com/gabriel-vasile/mimetype v1.4.5 // indirect
 	github.com/gin-contrib/sse v0.1.0 // indirect
-	github.com/gin-gonic/gin v1.10.0 // indirect
 	github.com/go-playground/locales v0.14.1 // indirect
 	github.com/go-playground/universal-translator v0.18.1 // indirect
 	github.com/go-playground/validator/v10 v10.22.0 // indirect
